@@ -19,6 +19,10 @@ func C15(c *Ctx) {
 	c.R.Rule("C15-R1", "E3", "report and apply are paired", 5)
 	c.R.Rule("C15-R2", "E6", "field exhaustiveness of the change report and its consumers", 6)
 	c.R.Rule("C15-R5", "E6", "the copy the store keeps of a reported spec source is faithful", 1)
+	c.R.Rule("C15-R6", "E1", "nothing behaviour-relevant lives outside the reported node and bindings: no script runtime outlives an execution", 3)
+	if ea, ex := c.ecmaAnalysis(); ea != nil {
+		c.runtimeFresh("C15-R6", ea, ex)
+	}
 	c.R.Rule("C15-R4", "E3", "a crew's reaction is a walk from the recorded state: RunMachine returns only what Walk returned, walked from Machine.State", 2)
 	c.R.Rule("C15-R3", "E3", "who may change a live machine: every assignment of a crew machine's persisted fields anywhere in package sio is covered by a change record", 3)
 	runM := c.fn("sio", "Crew", "RunMachine")
